@@ -1068,7 +1068,23 @@ fn gen_c03(thorough: bool, rng: &mut Rng, emit: &mut dyn FnMut(&str, Vec<String>
     }
 
     // sessions whose id is not 0 (12: quarter id 3; 280: quarter id 70, a two-byte header)
-    for (sid, limit) in [(12u64, "1200"), (280, "1200"), (280, "64"), (12, "2"), (280, "2"), (280, "1")] {
+    // 64 and 252: the session id itself needs a two-byte varint while its quarter id (the
+    // datagram header) needs one; 256: both need two
+    for (sid, limit) in [
+        (12u64, "1200"),
+        (280, "1200"),
+        (280, "64"),
+        (12, "2"),
+        (280, "2"),
+        (280, "1"),
+        (64, "1200"),
+        (64, "10"),
+        (64, "11"),
+        (252, "1200"),
+        (252, "2"),
+        (252, "1"),
+        (256, "1200"),
+    ] {
         for rt in RTS {
             emit(
                 "dgram.send",
